@@ -8,7 +8,7 @@ p = [json.loads(l) for l in open('/verif/properties.jsonl') if json.loads(l)['id
 wt = f"/tmp/seed-{pid}{suffix}"
 print(f"""You are given a git worktree of the Go library TeaEntityLab/fpGo (a generics functional-programming utility library: Maybe, MonadIO, streams/sets, queues, coroutines, actors, a worker pool and a Retrofit-like HTTP helper) at {wt}. You may read and edit files ONLY under {wt} (do not touch /repo, and do not read or list anything under /verif — it is off-limits for this task).
 
-Environment: sealed sandbox, no network. In every shell call first run: export GOFLAGS=-mod=mod GOPROXY=off GOSUMDB=off GOTOOLCHAIN=local   (Go 1.23). If `go` rewrites go.sum, run `git checkout -- go.sum`. Files named verifhook_*.go and the one-line calls verifPoint("...", x) in the sources are inert test instrumentation (no-ops): leave them alone and do not rely on them.
+Environment: sealed sandbox, no network. In every shell call first run: export GOFLAGS=-mod=mod GOPROXY=off GOSUMDB=off GOTOOLCHAIN=local   (Go 1.23). If `go` rewrites go.sum, run `git checkout -- go.sum`. Never use `git stash` (the stash is shared with other worktrees of this repository that other people are using right now): switch between patched and unpatched with `git apply` / `git apply -R` / `git checkout -- <file>`. Files named verifhook_*.go and the one-line calls verifPoint("...", x) in the sources are inert test instrumentation (no-ops): leave them alone and do not rely on them.
 
 A semantic property that this library is supposed to satisfy:
 
